@@ -145,10 +145,18 @@ def calls_for(cls: type) -> list[tuple[str, object]]:
     return out
 
 
-def run_class(cls: type) -> dict[str, str]:
+def run_class(cls: type, flip: int = 0) -> dict[str, str]:
+    import zlib
+
     res = {}
-    reader = K.entity_reader(cls)
-    writer = K.entity_writer(cls)
+    # which of the two closures of a class is built first also varies with the order (a reader must not depend on whether
+    # its own class's writer exists already, and vice versa)
+    if (zlib.crc32(f"{cls.__module__}:{cls.__qualname__}".encode()) + flip) % 2:
+        writer = K.entity_writer(cls)
+        reader = K.entity_reader(cls)
+    else:
+        reader = K.entity_reader(cls)
+        writer = K.entity_writer(cls)
     for label, arg in calls_for(cls):
         if label.startswith("dec:"):
             def dec(arg=arg):
@@ -187,9 +195,15 @@ def main(argv: list[str]) -> int:
         if a.startswith("only="):
             only = set(a[5:].split(","))
     results = {}
+    import zlib
+
+    flip = 0 if spec.startswith("list:") else zlib.crc32(spec.encode()) % 2
+    for arg in argv[2:]:
+        if arg.startswith("flip="):
+            flip = int(arg[5:])
     for path in order_of(spec):
         cls = D.resolve(path)
-        r = run_class(cls)
+        r = run_class(cls, flip)
         if only is None or path in only:
             results[path] = r
     with open(out_path, "w") as fh:
